@@ -325,7 +325,9 @@ PLUGS = {
     'C05': dict(streams=lambda seed, tier: valid_stream(seed, sizes(tier, 2000, 30000), 'roundtrip') +
                 [dict(s, op='roundtrip') for s in gen.scenarios_tuplelayout(seed, sizes(tier, 400, 6000))],
                 project=proj_full, oracles=[], disagreement_is_failure=True, post_oracle=rt_oracle),
-    'C06': dict(streams=lambda seed, tier: valid_stream(seed, sizes(tier, 2000, 30000), 'convert2'),
+    'C06': dict(streams=lambda seed, tier: valid_stream(seed, sizes(tier, 2000, 30000), 'convert2') +
+                [dict(s, op='convert2') for s in gen.scenarios_tuplelayout(seed, sizes(tier, 500, 8000))] +
+                twin_stream(seed, sizes(tier, 100, 1500), op='convert2'),
                 project=proj_full, oracles=[], disagreement_is_failure=True, post_oracle=rt_oracle),
     'C07': dict(streams=lambda seed, tier: conv_stream(seed, sizes(tier, 1500, 30000), 'try_collect', ['c07']) +
                 with_oracles(gen.scenarios_shapes(seed, sizes(tier, 800, 12000), op='try_collect'), ['c07']) +
